@@ -3,7 +3,7 @@
     operation, slice and index of the loader is a Panic-capable model operation; loops run on
     explicit fuel); stack depth, wall-clock time and allocator behaviour are runtime and are
     exercised by the child-process runs of the check. *)
-From TB Require Import Base Decimal BencodeModel BencodeSpec BencodeProofs TorrentModel TorrentProofs.
+From TB Require Import Base Decimal BencodeModel BencodeSpec BencodeProofs TorrentModel TorrentProofs BencodeImpl BencodeImplProofs.
 Local Open Scope N_scope.
 
 (** The decoder model returns a value or an error for every byte string: never Panic ... *)
@@ -23,7 +23,26 @@ Proof. exact (dec_any_fuel fuel p rest). Qed.
 Theorem C09_load_total H x : len x <= u64max -> load H x <> Panic /\ load H x <> OutOfFuel.
 Proof. exact (load_total H x). Qed.
 
+(** The two numeric automata of parser.rs modelled state by state and byte by byte, with the
+    arithmetic as written (checked_mul / checked_add / checked_sub, the unchecked [position += 1],
+    [position.checked_add(n)] against [bytes.len()]): they compute exactly the functions the decoder
+    model uses, never overflow the position (no [Panic]) and never need more fuel than bytes. *)
+Theorem C09_string_automaton_is_model pos rest : pos + len rest <= u64max -> dec_str_impl pos rest = dec_str pos rest.
+Proof. exact (dec_str_impl_eq pos rest). Qed.
+Theorem C09_integer_automaton_is_model pos rest : pos + len rest <= u64max -> dec_int_impl pos rest = dec_int pos rest.
+Proof. exact (dec_int_impl_eq pos rest). Qed.
+Theorem C09_string_automaton_no_overflow pos rest : pos + len rest <= u64max ->
+  dec_str_impl pos rest <> Panic /\ dec_str_impl pos rest <> OutOfFuel.
+Proof. exact (dec_str_impl_no_panic pos rest). Qed.
+Theorem C09_integer_automaton_no_overflow pos rest : pos + len rest <= u64max ->
+  dec_int_impl pos rest <> Panic /\ dec_int_impl pos rest <> OutOfFuel.
+Proof. exact (dec_int_impl_no_panic pos rest). Qed.
+
 Print Assumptions C09_decode_no_panic.
 Print Assumptions C09_decode_fuel_linear.
 Print Assumptions C09_dec_any_fuel.
 Print Assumptions C09_load_total.
+Print Assumptions C09_string_automaton_is_model.
+Print Assumptions C09_integer_automaton_is_model.
+Print Assumptions C09_string_automaton_no_overflow.
+Print Assumptions C09_integer_automaton_no_overflow.
